@@ -30,14 +30,16 @@ Definition ones_complement_checksum (arr : bytes) : result bytes :=
 Record l4pkt := {
   ipv6 : bool;
   ip_src : bytes; ip_dst : bytes;
-  proto : Z;             (* ip.p for IPv4, ip.nxt for IPv6 *)
+  proto : Z;             (* ip.p (IPv4); for IPv6 the field ip.nxt, which the code no longer uses *)
   seg : bytes;           (* bytes(packet.tcp) / bytes(packet.udp): header and payload *)
   field : Z }.           (* packet.tcp.sum / packet.udp.sum *)
 
-Definition pseudo_header (p : l4pkt) : result bytes :=
+(* upper: the upper-layer protocol that the IPv6 pseudo-header names (6 for TCP, 17 for UDP; RFC 8200 8.1), whatever extension
+   headers the packet carries; IPv4 takes the header's protocol field *)
+Definition pseudo_header (upper : Z) (p : l4pkt) : result bytes :=
   if ipv6 p then
-    do l <- to_be (len (seg p)) 4; do pr <- to_be (proto p) 1;
-    Ok (ip_src p ++ ip_dst p ++ l ++ [0; 0; 0] ++ pr)
+    do l <- to_be (len (seg p)) 4;
+    Ok (ip_src p ++ ip_dst p ++ l ++ [0; 0; 0] ++ [upper])
   else
     do pr <- to_be (proto p) 1; do l <- to_be (len (seg p)) 2;
     Ok (ip_src p ++ ip_dst p ++ [0] ++ pr ++ l).
@@ -50,12 +52,12 @@ Definition same_checksum (calculated packet_checksum : bytes) : bool :=
   bytes_eqb calculated packet_checksum
   || (bytes_eqb calculated [0; 0] && bytes_eqb packet_checksum [255; 255]).
 
-Definition calculate_checksum (off : Z) (p : l4pkt) : result bool :=
-  do ph <- pseudo_header p;
+Definition calculate_checksum (off upper : Z) (p : l4pkt) : result bool :=
+  do ph <- pseudo_header upper p;
   let data := zero_field (seg p) off in
   do calc <- ones_complement_checksum (ph ++ data);
   do pc <- to_be (field p) 2;
   Ok (same_checksum calc pc).
 
-Definition calculate_checksum_tcp := calculate_checksum 16.
-Definition calculate_checksum_udp := calculate_checksum 6.
+Definition calculate_checksum_tcp := calculate_checksum 16 6.
+Definition calculate_checksum_udp := calculate_checksum 6 17.
